@@ -188,12 +188,27 @@ def classify(c):
 TIES = [Tie("chainsel_ops", "tie/drivers/chainsel_drv.cpp", "Extract_ChainSel.v", "chainsel_driver.ml", gen, mode="C08",
             predicate="driver", nontrivial=nontrivial, classify=classify, shrink=shrink)]
 
-LEVEL_TEXT = ("Coq theorems by induction over ALL sequences of header deliveries, block deliveries (requested or not), invalidateblock "
-              "and reconsiderblock calls from the genesis state, for every block universe: see LEVEL_NOTE for the list and what is "
-              "partial. Model tied to the real ChainstateManager on TestChain100Setup by running the same op script on both and "
-              "comparing the tip and every changed block flag after every op.")
+LEVEL_TEXT = ("Coq theorems (coq/props/Properties_C08.v, all closed under the global context, nothing partial) by induction over ALL "
+              "sequences of header deliveries, block deliveries (requested or not), invalidateblock and reconsiderblock calls from the "
+              "genesis state, for every block universe (arbitrary parent / work / validity kind per block id, work > 0, genesis valid) "
+              "and every MinimumChainWork: (1) an invariant modelled on CheckBlockIndex holds after every op (index is a tree; active "
+              "chain = ancestry of the tip, all with data, unflagged, valid; failure flags descendant-closed; HaveNumChainTxs <=> data on "
+              "the whole ancestry; candidates sound and complete; m_blocks_unlinked exact; sequence ids unique) and the tip is the only "
+              "candidate left; (2) tip_is_best: the tip is the maximum, in CBlockIndexWorkComparator's order, of the blocks whose whole "
+              "ancestry has data and no failure flag (hence greatest chainwork, and earliest sequence id among equal work); (3) no block "
+              "failing a consensus check and no descendant of one is ever in the active chain; (4) invalidateblock b leaves b flagged and "
+              "outside the active chain; (5) after reconsiderblock the tip is best again. Loops carry explicit fuel with proved bounds "
+              "(FindMostWorkChain |candidates|+1, ReceivedBlockTransactions |unlinked|+1, ActivateBestChain |index|+1 rounds). Model tied "
+              "to the real ChainstateManager on TestChain100Setup by running the same op script on both and comparing the call result, the "
+              "tip and every changed block flag (known, HAVE_DATA, FAILED, active, nSequenceId) after every op; the property's predicates "
+              "are evaluated on the implementation's index after every op.")
 LEVEL_NOTE = ("Trusted: Coq kernel, dump_params.cpp, extraction + driver glue. The model is a hand transcription; block ids stand for "
               "hashes; the ancestor list stored in a header stands for the pprev/pskip pointers; ActivateBestChainStep's early "
               "returns (lock release, 32-block batches) are not modelled because with one caller they only split the same sequence "
-              "of connects. Not modelled: pruning, snapshot chainstates, PreciousBlock, m_best_header, m_best_invalid.")
+              "of connects. Not modelled: pruning (FindMostWorkChain's missing-data branch is transcribed and proved unreachable), "
+              "snapshot chainstates, PreciousBlock, m_best_header, m_best_invalid, too-little-chainwork headers (min_pow_checked=false), "
+              "system errors. The predicates evaluated on the implementation's dump (holds_tip_best, holds_tip_most_work, "
+              "holds_active_clean) are extracted Coq functions proved to hold on the dump of every reachable model state "
+              "(C08_search_predicates_hold_on_model_states); the OCaml glue that rebuilds the dump from the per-op deltas and re-roots "
+              "it at the lowest touched fixture block is trusted.")
 TECHNIQUE = "Coq proof (invariant in the style of CheckBlockIndex, induction over op sequences) + per-op differential correspondence"
